@@ -850,8 +850,66 @@ func c14(r *hx.Run) {
 			return e
 		case 3:
 			return append([]byte{}, right[:47]...)
+		case 5: // twice the size: two values glued together
+			return append(append([]byte{}, right...), right...)
+		case 6: // three times the size
+			return append(append(append([]byte{}, right...), right...), right...)
+		case 7: // half the size
+			return append([]byte{}, right[:24]...)
 		}
 		return append(append([]byte{}, right...), 9)
+	}
+	// entries whose wrong length is a multiple or a divisor of the right one, at each position of lists of length 1..4
+	for n := 1; n <= 4; n++ {
+		for pos := 0; pos < n; pos++ {
+			for kind := 5; kind <= 7; kind++ {
+				for _, others := range []int{0, 1, 2} {
+					var lr, la [][]byte
+					for i := 0; i < n; i++ {
+						k := others
+						if i == pos {
+							k = kind
+						}
+						lr = append(lr, entry(k, t0.Rtmrs[i%4]))
+						la = append(la, entry(k, t0.MrTd))
+					}
+					convCase(r, &ccpb.Policy{TdQuoteBodyPolicy: &ccpb.TDQuoteBodyPolicy{Rtmrs: lr}}, quotes[:2], "rtmrs-multiple-length")
+					convCase(r, &ccpb.Policy{TdQuoteBodyPolicy: &ccpb.TDQuoteBodyPolicy{AnyMrTd: la}}, quotes[:2], "anymrtd-multiple-length")
+				}
+			}
+		}
+	}
+	// single byte-string fields of twice / three times / half the size
+	for _, f := range fields {
+		cur := *f.ptr(full())
+		for _, val := range [][]byte{append(append([]byte{}, cur...), cur...), append(append(append([]byte{}, cur...), cur...), cur...), cur[:f.size/2], make([]byte, 4*f.size)} {
+			p := &ccpb.Policy{HeaderPolicy: &ccpb.HeaderPolicy{}, TdQuoteBodyPolicy: &ccpb.TDQuoteBodyPolicy{}}
+			*f.ptr(p) = val
+			convCase(r, p, quotes[:2], "field-multiple-length:"+f.name)
+		}
+	}
+	// minimum TEE TCB SVN against the quote's, component by component: one component above the quote's and another below it,
+	// in both orders (a minimum is met only if EVERY component is), plus single components moved
+	for i := 0; i < 16; i++ {
+		for j := 0; j < 16; j++ {
+			min := append([]byte{}, t0.TeeTcbSvn...)
+			if i == j {
+				for _, d := range []int{-1, 1} {
+					m := append([]byte{}, min...)
+					if v := int(m[i]) + d; v >= 0 && v <= 255 {
+						m[i] = byte(v)
+						convCase(r, &ccpb.Policy{TdQuoteBodyPolicy: &ccpb.TDQuoteBodyPolicy{MinimumTeeTcbSvn: m}}, quotes[:1], "min-tee-tcb-svn:one-component")
+					}
+				}
+				continue
+			}
+			if min[i] == 255 || min[j] == 0 || (!thorough && (i+3*j)%5 != 0) {
+				continue
+			}
+			min[i]++
+			min[j]--
+			convCase(r, &ccpb.Policy{TdQuoteBodyPolicy: &ccpb.TDQuoteBodyPolicy{MinimumTeeTcbSvn: min}}, quotes[:1], "min-tee-tcb-svn:mixed-directions")
+		}
 	}
 	for c := 0; c < 625; c++ {
 		var l [][]byte
